@@ -1,7 +1,12 @@
 """C07 - URL.navigate = RFC 3986 section 5.2 reference resolution, normalised result.
 
 A case is one whole navigation history:
-    {'base': <components>, 'refs': [<components>, ...], 'as_url': 0|1}
+    {'base': <components>, 'refs': [<components>, ...], 'as_url': 0|1|2 [, 'lazy': 1] [, 'base_parsed_query': str]}
+as_url: 0 = every reference is passed as text, 1 = as URL(text), 2 = as a URL object parsed from the text
+without its query and fragment, which are then set through the public API (query_params.add, .fragment).
+lazy: the base object is not looked at before the first navigate() (a twin object gives the "before" picture).
+base_parsed_query: the base text is parsed with THIS query, then its parameters are replaced through the public
+query_params API by those of base['query'] (the object then carries a stale private query text).
 components = {'scheme': str|None, 'auth': 0|1, 'user','pw','host': str, 'v6': 0|1, 'port': int (0 = none),
               'path': str, 'query': str|None, 'frag': str|None}      (missing keys = absent / empty)
 The harness recomposes the texts (RFC 3986 5.3) and feeds them to the real code; the model driver gets
@@ -191,6 +196,42 @@ def canon(text):
     return (s, a, p, q, f)
 
 
+def qnorm(q):
+    """the parameters of a query text, written back: pairs separated by '&' or ';', empty pairs dropped
+    (HTML 4.01 B.2.2 / the query-parameter reading of a query; independent of boltons' parse_qsl)"""
+    return '&'.join(p for p in re.split('[&;]', q) if p)
+
+
+def query_canonical(q):
+    """does the query text consist of '&'-separated non-empty pairs only (so that 'the parameters written
+    back' is the text itself)?"""
+    return q is None or q == '' or (';' not in q and all(q.split('&')))
+
+
+def same_uri(got, want):
+    """canon(got) == canon(want); only when the query of `want` is NOT a plain '&'-separated list of non-empty
+    pairs (';' separators, empty pairs) are the two queries compared as parameter lists instead of texts -
+    boltons' URL object stores parameters, not the query text (parsing is property C06)"""
+    cg, cw = canon(got), canon(want)
+    if cg == cw:
+        return True
+    if cw[3] is None or query_canonical(cw[3]):
+        return False
+    ng = qnorm(cg[3]) if cg[3] is not None else ''
+    nw = qnorm(cw[3])
+    return cg[:3] + (ng,) + cg[4:] == cw[:3] + (nw,) + cw[4:]
+
+
+def own_pairs(q):
+    """the (key, value-or-None) parameters of a query text, for feeding them to the public query_params API"""
+    out = []
+    for p in re.split('[&;]', q or ''):
+        if p:
+            k, eq, v = p.partition('=')
+            out.append((k, v if eq else None))
+    return out
+
+
 def dot_segments(path):
     return [s for s in path.split('/') if s in ('.', '..')]
 
@@ -200,6 +241,13 @@ def dot_segments(path):
 SEGS_SMALL = ['.', '..', '', 'a', 'b;p']
 SEGS_WIDE = ['.', '..', '', 'a', 'b;p', 'g.', '.g', '..g', 'g..', '...', 'x=1', 'c:d', '@', '~', 'A', '0', '-._']
 QUERIES = [None, '', 'y=1']
+# queries whose parameters repeat a key, are not in sorted order, lack a value or have an empty one, differ in
+# case only, have an empty key, are exact duplicates, or are many
+MULTI_QUERIES = ['k=1&k=2', 'tag=x&page=2&tag=y', 'b=2&a=1', 'k&k', 'k=&k', 'k&k=', 'id=1&id=2&id=3',
+                 'z=1&y=2&z=3&y=4', 'k=', 'a=1&a=1', 'K=1&k=2', '=v', 'k=v&=w&k=u&=x',
+                 '&'.join('p%d=%d' % (i % 7, i) for i in range(40))]
+# query texts that are not '&'-joined non-empty pairs: ';' separators, empty pairs, separators only
+NONCANON_QUERIES = ['a=1;b=2', '&a=1', 'a=1&&b=2', 'a=1&', '&', ';', 'a=1;a=2', '&;&', 'k;k=;k']
 FRAGS = [None, '', 's']
 
 BASES = [
@@ -233,6 +281,7 @@ ABS_REFS = [
     {'scheme': 'ftp', 'auth': 1, 'host': '::2', 'v6': 1, 'path': '/'},
     {'scheme': 'http', 'auth': 1, 'host': 'x', 'path': '/p/../q/.'},
     {'scheme': 'other', 'auth': 1, 'host': 'x', 'path': '/p'},
+    {'scheme': 'http', 'auth': 1, 'host': 'x', 'path': '/p', 'query': 'k=1&j&k=2&k='},
 ]
 # references the property says nothing about (authority without scheme, scheme without host): model only
 ODD_REFS = [
@@ -277,10 +326,11 @@ def in_model_domain(c):
     if not all(_TOKEN_OK.match(s) for s in c['path'].split('/')):
         return False
     if c['query'] is not None and c['query'] != '':
-        # key=value pairs that parse and print back unchanged
-        for pair in c['query'].split('&'):
+        # pairs separated by '&' or ';' (empty pairs allowed), each `key`, `key=` or `key=value` (the key may be
+        # empty before '='), keys and values of characters that are neither quoted nor unquoted
+        for pair in re.split('[&;]', c['query']):
             k, eq, v = pair.partition('=')
-            if not re.match(r'^[A-Za-z0-9._~-]+$', k) or (eq and not re.match(r'^[A-Za-z0-9._~-]+$', v)):
+            if not re.match(r'^[A-Za-z0-9._~-]*$', k) or not re.match(r'^[A-Za-z0-9._~-]*$', v):
                 return False
     if c['frag'] is not None and not re.match(r'^[A-Za-z0-9._~/?:@-]*$', c['frag']):
         return False
@@ -312,12 +362,30 @@ class C07(Property):
             'fragment, #, #s} against 8 base shapes (quick: also 4 segments x {no query, ?y=1}); all pairs (thorough: '
             'triples) over a 17-spelling segment alphabet with dot look-alikes against 3 bases; plus seeded random chains over a wider segment alphabet, absolute '
             'references, adversarial (deep .. runs, empty-segment runs, dot look-alikes) and the RFC 3986 5.4 '
-            'examples (corpus). Non-trivial = some reference has a non-empty path containing a dot or empty segment, '
+            'examples (corpus). FIRST in the stream: the query family - bases and references whose query repeats a '
+            'key, is unsorted, has valueless / empty-valued / empty keys, exact duplicate pairs, 40 pairs, ";" '
+            'separators or empty pairs: path-less references (empty, #s, ?, ?#s) inheriting each such base query, '
+            'each such query on 7 reference shapes x 3 bases x 3 base queries, and all 3-step chains over 6 '
+            'path-less / query / path steps, each as text, as URL(text) and as a URL object whose query/fragment were '
+            'set through the public API (stale private query text); bases never looked at before navigate() (lazy '
+            'query parsing) and bases whose parameters were replaced after parsing; the same queries are mixed into the '
+            'random bases and references. After every history the results are mutated through their public '
+            'query_params (one marker parameter each) and the base / earlier results are observed again; every '
+            'intermediate result is also observed before and after it serves as the base of the next step. '
+            'Second: the authority family (7 userinfo shapes incl. upper case x 3 hosts incl. mixed case and IPv6 x 3 '
+            'ports x 2 schemes x 2 base paths x 7 reference kinds + one 3-step chain); third: normalize() alone on '
+            'every base path of <= 4 segments over the small alphabet, rooted under a host and rooted / rootless '
+            'without one (no navigation), with and without case normalisation, each applied twice. '
+            'These small families, the absolute / odd references, the look-alike pairs, the odd bases and 500 '
+            'adversarial cases come before the large exhaustive and random families. Non-trivial = some reference has a non-empty path containing a dot or empty segment, '
             'or is query-/fragment-only, and the RFC oracle judged the step; distinct = distinct history.')
     ASSUMPTIONS = [
         'components are drawn from characters whose parse/unquote/quote/IDNA handling is the identity (no %, no '
-        'delimiter inside a component, ASCII LDH hosts, non-default non-zero ports, key[=value] queries): quoting and '
-        'parsing are property C06',
+        'delimiter inside a component, ASCII LDH hosts, non-default non-zero ports, queries of key / key= / '
+        'key=value pairs separated by & or ;): quoting and parsing are property C06',
+        'a query text that is not a plain &-joined list of non-empty pairs (; separators, empty pairs) is compared '
+        'with the RFC target as a parameter list (pairs in order, empty pairs dropped), because a URL object stores '
+        'parameters, not the query text; every other query is compared verbatim',
         'comparison identifies an empty path under an authority with "/", scheme/host case, and a present-but-empty '
         'query or fragment with an absent one (boltons URL cannot represent the latter difference)',
         'the RFC-equality clause is judged for bases with a non-empty host and an empty or rooted path (and, for '
@@ -381,8 +449,92 @@ class C07(Property):
                         continue      # that would be an authority
                     yield path
 
+    def query_family(self):
+        """small, adversarial, first: everything that can happen to the query parameters on their way through
+        navigate() / from_parts()"""
+        shapes = [{'scheme': 'http', 'auth': 1, 'user': 'user', 'pw': 'pw', 'host': 'a.example', 'port': 8080,
+                   'path': '/b/c/d', 'frag': 'top'},
+                  {'scheme': 'http', 'auth': 1, 'host': 'a', 'path': ''},
+                  {'scheme': 'https', 'auth': 1, 'host': 'a', 'path': '/'}]
+        allq = MULTI_QUERIES + NONCANON_QUERIES
+        pathless = [{}, {'frag': 's'}, {'query': ''}, {'query': '', 'frag': 's'}]
+        # path-less references inherit the base query
+        for b in shapes:
+            for bq in allq + [None]:
+                for r in pathless:
+                    for au in (0, 1, 2):
+                        yield {'base': compact(dict(b, query=bq)), 'refs': [r], 'as_url': au}
+                    yield {'base': compact(dict(b, query=bq)), 'refs': [r], 'as_url': 0, 'lazy': 1}
+                    yield {'base': compact(dict(b, query=bq)), 'refs': [r, {'path': 'g'}, {'frag': 't'}], 'as_url': 0,
+                           'base_parsed_query': 'old=0&k=5'}
+                    yield {'base': compact(dict(b, query=bq)), 'refs': [r], 'as_url': 1, 'lazy': 1,
+                           'base_parsed_query': ''}
+        # the reference's own query replaces it
+        rshapes = [{'path': ''}, {'path': 'g'}, {'path': '../g/./h', 'frag': 'f'}, {'path': '/r'}, {'path': '.'},
+                   {'path': './'}, {'path': '..'}]
+        for b in shapes:
+            for bq in (None, 'q=1', 'k=0&k=9'):
+                for r in rshapes:
+                    for q in allq:
+                        for au in (0, 1, 2):
+                            yield {'base': compact(dict(b, query=bq)), 'refs': [compact(dict(r, query=q))], 'as_url': au}
+        # chains: the query must survive (or be replaced) over several hops
+        steps = [{'frag': 'one'}, {}, {'query': 'k=1&k=2&j'}, {'path': 'g'}, {'path': './', 'query': 'b=2&a=1&b=0'},
+                 {'frag': 'two'}]
+        for b in shapes[:2]:
+            for bq in ('tag=x&page=2&tag=y', 'k=&k', 'a=1;a=2'):
+                for n, seq in enumerate(itertools.permutations(steps, 3)):
+                    for au in (0, 1, 2):
+                        c = {'base': compact(dict(b, query=bq)), 'refs': list(seq), 'as_url': au}
+                        if (n + au) % 3 == 0:
+                            c['lazy'] = 1
+                        yield c
+
+    def authority_family(self):
+        """scheme / userinfo / host / port are inherited verbatim (userinfo is case-sensitive, scheme and host are
+        not): every userinfo x host x port shape against the reference kinds"""
+        users = [{}, {'user': 'u'}, {'user': 'User'}, {'user': 'me.too', 'pw': 'pw'}, {'user': 'Admin', 'pw': 'PassWord'},
+                 {'user': 'a.b', 'pw': 'P.w-1'}, {'user': 'UPPER'}]
+        hosts = [{'host': 'a'}, {'host': 'Sub.H-1.Example'}, {'host': '2001:db8::7', 'v6': 1}]
+        ports = [0, 81, 65535]
+        refs = [{}, {'path': 'g'}, {'path': '../x/.'}, {'path': '/r'}, {'query': 'y=1'}, {'frag': 'Sec'}, {'path': '.'}]
+        for sch in ('http', 'git+ssh'):
+            for u in users:
+                for h in hosts:
+                    for po in ports:
+                        for path in ('', '/b/C/d'):
+                            b = compact(dict({'scheme': sch, 'auth': 1, 'path': path, 'query': 'q=1', 'frag': 'F',
+                                              'port': po}, **dict(u, **h)))
+                            for n, r in enumerate(refs):
+                                yield {'base': b, 'refs': [r], 'as_url': n % 3}
+                            yield {'base': b, 'refs': [{'path': 'x/'}, {'path': '../Y'}, {'frag': 'Z'}], 'as_url': 0,
+                                   'lazy': 1}
+
+    def normalize_family(self):
+        """normalize() on its own (no navigation): every path of <= 4 segments over {., .., empty, a, b;p}, rooted
+        under a host, rooted and rootless without one, mixed-case scheme / host"""
+        for path in sorted(set(self.exhaustive_refs(4, SEGS_SMALL))):
+            if path.startswith('/') or path == '':
+                yield {'base': {'scheme': 'HTtp', 'auth': 1, 'user': 'Us', 'host': 'A.b', 'path': path, 'query': 'Q=1'},
+                       'refs': [], 'as_url': 0}
+                yield {'base': {'scheme': 'foo', 'path': path}, 'refs': [], 'as_url': 0}
+            else:
+                yield {'base': {'scheme': 'urn', 'path': path}, 'refs': [], 'as_url': 0}
+                if ':' not in path.split('/')[0]:
+                    yield {'base': {'path': path, 'frag': 'f'}, 'refs': [], 'as_url': 0}
+
     def cases(self, budget_s):
         rng = self.rng
+        for c in self.query_family():
+            yield c
+        for c in self.authority_family():
+            yield c
+        for c in self.small_families():
+            yield c
+        for c in self.adversarial(rng, 500):
+            yield c
+        for c in self.normalize_family():
+            yield c
         # RFC-shaped single steps, exhaustive
         L = 5 if self.thorough else 3
         paths = sorted(set(self.exhaustive_refs(L, SEGS_SMALL)))
@@ -399,27 +551,37 @@ class C07(Property):
                 for path in sorted(set(self.exhaustive_refs(4, SEGS_SMALL)) - set(paths)):
                     for q in (None, 'y=1'):
                         yield {'base': b, 'refs': [compact({'path': path, 'query': q})], 'as_url': 0}
-        # dot look-alikes and other segment spellings, every pair (thorough: triple)
+        if self.thorough:
+            for c in self.lookalike_family(3):
+                yield c
+        for c in self.adversarial(rng, 10000 if self.thorough else 2500):
+            yield c
+        n_rand = 150000 if self.thorough else 17000
+        for i in range(n_rand):
+            yield self.random_case(rng)
+
+    def lookalike_family(self, n):
+        # dot look-alikes and other segment spellings, every pair (thorough: also every triple)
         for b in (BASES[0], BASES[1], BASES[3]):
-            for path in sorted(set(self.exhaustive_refs(3 if self.thorough else 2, SEGS_WIDE))):
+            for path in sorted(set(self.exhaustive_refs(n, SEGS_WIDE))):
                 if not path.startswith('/') and ':' in path.split('/')[0]:
                     continue     # would be a scheme
                 yield {'base': b, 'refs': [compact({'path': path})], 'as_url': 0}
-        # odd bases x short references; absolute / odd references x all bases
+
+    def small_families(self):
+        # absolute / odd references x all bases
+        for b in BASES + ODD_BASES:
+            for r in ABS_REFS + ODD_REFS:
+                for au in (0, 1, 2):
+                    yield {'base': b, 'refs': [r], 'as_url': au}
+        for c in self.lookalike_family(2):
+            yield c
+        # odd bases x short references
         short = sorted(set(self.exhaustive_refs(2, SEGS_SMALL)))
         for b in ODD_BASES:
             for path in short:
                 for q in (None, 'y=1'):
                     yield {'base': b, 'refs': [compact({'path': path, 'query': q})], 'as_url': 0}
-        for b in BASES + ODD_BASES:
-            for r in ABS_REFS + ODD_REFS:
-                for au in (0, 1):
-                    yield {'base': b, 'refs': [r], 'as_url': au}
-        n_rand = 150000 if self.thorough else 20000
-        for i in range(n_rand):
-            yield self.random_case(rng)
-        for c in self.adversarial(rng, 10000 if self.thorough else 3000):
-            yield c
 
     def deep_cases(self, budget_s):
         rng = self.rng
@@ -447,9 +609,22 @@ class C07(Property):
             path = path[1:]
         if not path.startswith('/') and ':' in path.split('/')[0]:
             path = './' + path
-        ref = {'path': path, 'query': rng.choice([None, None, '', 'y=1', 'k', 'a=b&c=d']),
-               'frag': rng.choice([None, None, '', 's', 'top/x?y'])}
+        ref = {'path': path, 'query': self.random_query(rng, [None, None, '', 'y=1', 'k', 'a=b&c=d']),
+               'frag': rng.choice([None, None, '', 's', 'top/x?y', 'Sec-2'])}
         return compact(ref)
+
+    def random_query(self, rng, plain):
+        r = rng.random()
+        if r < 0.7:
+            return rng.choice(plain)
+        if r < 0.8:
+            return rng.choice(MULTI_QUERIES)
+        if r < 0.85:
+            return rng.choice(NONCANON_QUERIES)
+        # random pairs over few keys: repetitions, valueless and empty-valued keys, any order
+        n = rng.choice([1, 2, 2, 3, 3, 4, 6])
+        return '&'.join(rng.choice(['k', 'j', 'K', 'a.b']) + rng.choice(['', '=', '=1', '=2', '=v-w'])
+                        for _ in range(n))
 
     def random_base(self, rng):
         r = rng.random()
@@ -462,27 +637,37 @@ class C07(Property):
         if rng.random() < 0.15:
             b['host'], b['v6'] = rng.choice(['::1', '2001:db8::7']), 1
         if rng.random() < 0.3:
-            b['user'] = rng.choice(['u', 'me.too'])
+            b['user'] = rng.choice(['u', 'me.too', 'User', 'A.b'])
             if rng.random() < 0.5:
-                b['pw'] = 'pw'
+                b['pw'] = rng.choice(['pw', 'PassWord'])
         if rng.random() < 0.3:
             b['port'] = rng.choice([81, 8080, 1, 65535])
         n = rng.choice([0, 0, 1, 1, 2, 3, 5])
         segs = [rng.choice(['a', 'b;p', '', 'c.d', 'x=1', 'A']) for _ in range(n)]
+        if rng.random() < 0.1:
+            # a base that is not normalised itself
+            segs = [rng.choice(['.', '..', '..']) if rng.random() < 0.4 else x for x in segs]
         b['path'] = ('/' + '/'.join(segs)) if n else rng.choice(['', '/'])
-        b['query'] = rng.choice([None, None, 'q=1', 'k', 'a=b&c=d'])
+        b['query'] = self.random_query(rng, [None, None, 'q=1', 'k', 'a=b&c=d'])
         b['frag'] = rng.choice([None, None, 'f'])
         return compact(b)
 
     def random_case(self, rng):
         nrefs = rng.choice([1, 1, 2, 2, 3, 4])
-        return {'base': self.random_base(rng), 'refs': [self.random_ref(rng) for _ in range(nrefs)],
-                'as_url': int(rng.random() < 0.3)}
+        c = {'base': self.random_base(rng), 'refs': [self.random_ref(rng) for _ in range(nrefs)],
+             'as_url': rng.choice([0, 0, 0, 0, 0, 0, 1, 1, 1, 2, 2])}
+        if rng.random() < 0.3:
+            c['lazy'] = 1
+        if rng.random() < 0.1:
+            c['base_parsed_query'] = rng.choice(['', 'old=0', 'k=5&k=6', 'q=1'])
+        return c
 
     def adversarial(self, rng, n):
         for _ in range(n):
             kind = rng.randrange(5)
             b = rng.choice(BASES)
+            if rng.random() < 0.25:
+                b = dict(b, query=rng.choice(MULTI_QUERIES[:-1]))
             if kind == 0:      # climb far above the root, then descend
                 up = rng.randint(1, 12)
                 segs = ['..'] * up + [rng.choice(['', 'a', '.', 'g'])] * rng.randint(0, 3)
@@ -498,7 +683,8 @@ class C07(Property):
                     segs.append(rng.choice(['', 'a']))
             else:              # long chains of tiny steps
                 refs = [compact({'path': rng.choice(['..', '.', './', '../', 'a/', 'a', '', '/', './/', '..//']),
-                                 'query': rng.choice([None, None, 'y=1']), 'frag': rng.choice([None, 's'])})
+                                 'query': rng.choice([None, None, 'y=1', 'k=1&k=2', 'k&j&k=']),
+                                 'frag': rng.choice([None, 's'])})
                         for _i in range(rng.randint(3, 6))]
                 yield {'base': b, 'refs': refs, 'as_url': int(rng.random() < 0.3)}
                 continue
@@ -531,13 +717,44 @@ class C07(Property):
         try:
             with time_limit(10):
                 base_text = compose(case['base'])
-                base = URL(base_text)
-                obs['base_before'] = self.dump(base)
-                cur = base
-                for r in case['refs']:
+
+                def make_base():
+                    if 'base_parsed_query' not in case:
+                        return URL(base_text)
+                    u = URL(compose(dict(case['base'], query=case['base_parsed_query'])))
+                    u.query_params.clear()
+                    for k, v in own_pairs(full(case['base'])['query']):
+                        u.query_params.add(k, v)
+                    return u
+
+                def make_dest(r):
+                    if case.get('as_url') == 2:
+                        rf = full(r)
+                        d = URL(compose(dict(rf, query=None, frag=None)))
+                        for k, v in own_pairs(rf['query']):
+                            d.query_params.add(k, v)
+                        if rf['frag'] is not None:
+                            d.fragment = rf['frag']
+                        return d
                     rt = compose(r)
+                    return URL(rt) if case.get('as_url') else rt
+                base = make_base()
+                # lazy: the base object itself is not touched before navigate() (its query_params not yet parsed)
+                obs['base_before'] = self.dump(make_base() if case.get('lazy') else base)
+                cur = base
+                objs = []
+                changed = []
+                for i, r in enumerate(case['refs']):
                     try:
-                        cur = cur.navigate(URL(rt) if case.get('as_url') else rt)
+                        before = obs['steps'][-1] if i else None
+                        nxt = cur.navigate(make_dest(r))
+                        if i:
+                            # the previous result is the base of this step: observe it again
+                            after = self.dump(cur)
+                            if after != before:
+                                changed.append([i, before, after])
+                        cur = nxt
+                        objs.append(cur)
                         obs['steps'].append(self.dump(cur))
                     except CaseTimeout:
                         raise
@@ -545,14 +762,31 @@ class C07(Property):
                         obs['steps'].append({'exc': exc_name(e)})
                         break
                 obs['base_after'] = self.dump(base)
-                n = URL(base_text)
+                obs['self_changed'] = changed
+                # the results are fresh objects: changing one through its public, mutable query_params must not
+                # reach the base or any other result
+                uniq = []
+                for u in objs:
+                    if not any(u is v for v in uniq):
+                        uniq.append(u)
+                for k, u in enumerate(uniq):
+                    u.query_params.add('zz%d' % k, 'poke')
+                obs['poked'] = [u.query_params.to_text() for u in uniq]
+                obs['poked_idx'] = [[i for i, o in enumerate(objs) if o is u] for u in uniq]
+                obs['base_after_poke'] = self.dump(base)
+                n = make_base()
                 n.normalize()
                 t1 = self.dump(n)
                 n.normalize()
                 t2 = self.dump(n)
-                m = URL(base_text)
+                m = make_base()
                 m.normalize(with_case=False)
-                obs['norm'] = [t1, t2, self.dump(m)]
+                t3 = self.dump(m)
+                m.normalize(with_case=False)
+                t4 = self.dump(m)
+                obs['norm'] = [t1, t2, t3]
+                if t4 != t3:
+                    obs['norm_nocase_twice'] = t4
         except CaseTimeout:
             obs['exc'] = 'CaseTimeout'
         except Exception as e:
@@ -604,10 +838,30 @@ class C07(Property):
         # the base URL object is left unmodified
         if obs['base_before'] != obs['base_after']:
             return Failure('base_modified', 'base changed by navigate: %r -> %r' % (obs['base_before'], obs['base_after']))
+        # ... and so is every intermediate result while it serves as the base of the next step
+        hist = '%r navigated through %r' % (base_text, [compose(r) for r in case['refs']])
+        for i, before, after in obs.get('self_changed', []):
+            return Failure('base_modified', '%s: step %d changed the URL it was called on (the result of step %d): '
+                           '%r -> %r' % (hist, i, i - 1, before['text'], after['text']))
+        # ... and the results are fresh objects: a parameter added to a result shows up in that result only
+        if 'base_after_poke' in obs:
+            if obs['base_after_poke'] != obs['base_before']:
+                return Failure('base_aliased', '%s: adding a query parameter to the navigation results changed the '
+                               'base: %r -> %r' % (hist, obs['base_before']['text'], obs['base_after_poke']['text']))
+            for k, (qt, idx) in enumerate(zip(obs['poked'], obs['poked_idx'])):
+                was = obs['steps'][idx[0]]['query']
+                want_q = (was + '&' if was else '') + 'zz%d=poke' % k
+                if qt != want_q:
+                    return Failure('result_aliased', '%s: after adding one parameter to every result, the query '
+                                   'parameters of the result of step %d are %r (expected %r): results share state' % (
+                                       hist, idx[0], qt, want_q))
         # normalize() is idempotent
         if obs['norm'][0] != obs['norm'][1]:
             return Failure('normalize_not_idempotent', 'normalize() twice: %r then %r' % (
                 obs['norm'][0]['text'], obs['norm'][1]['text']))
+        if 'norm_nocase_twice' in obs:
+            return Failure('normalize_not_idempotent', 'normalize(with_case=False) twice: %r then %r' % (
+                obs['norm'][2]['text'], obs['norm_nocase_twice']['text']))
         cur = base_text
         judged = 0
         synced = True
@@ -634,7 +888,7 @@ class C07(Property):
                                    'an authority' % (i, cur, rt, got))
             if kind == 'rel':
                 want = rfc_resolve(cur, rt)
-                if canon(got) != canon(want):
+                if not same_uri(got, want):
                     f = Failure('rfc_mismatch', 'step %d: %r navigate %r -> %r, RFC 3986 5.2 target %r' % (i, cur, rt, got, want))
                     f.step, f.cur, f.ref, f.got, f.want = i, cur, rt, got, want
                     return f
@@ -643,7 +897,7 @@ class C07(Property):
             elif kind == 'abs':
                 # replaces the base entirely: the reference itself, dot segments removed or not
                 want = rfc_resolve(cur, rt)
-                if canon(got) not in (canon(want), canon(rt)):
+                if not (same_uri(got, want) or same_uri(got, rt)):
                     return Failure('absolute_not_replacing', 'step %d: %r navigate %r -> %r' % (i, cur, rt, got))
                 judged += 1
                 cur = got
@@ -653,6 +907,12 @@ class C07(Property):
         self.stats['histories_len_%d' % min(len(case['refs']), 4)] = self.stats.get('histories_len_%d' % min(len(case['refs']), 4), 0) + 1
         if case.get('as_url'):
             self.stats['dest_passed_as_URL_object'] = self.stats.get('dest_passed_as_URL_object', 0) + 1
+        if case.get('as_url') == 2:
+            self.stats['dest_built_through_public_api'] = self.stats.get('dest_built_through_public_api', 0) + 1
+        if case.get('lazy'):
+            self.stats['base_untouched_before_navigate'] = self.stats.get('base_untouched_before_navigate', 0) + 1
+        if 'base_parsed_query' in case:
+            self.stats['base_query_edited_after_parse'] = self.stats.get('base_query_edited_after_parse', 0) + 1
         self._nt = judged > 0 and any(
             (full(r)['path'] == '' or any(s in ('.', '..', '') for s in full(r)['path'].split('/')[:-1])
              or full(r)['path'].split('/')[-1] in ('.', '..')) for r in case['refs'])
@@ -664,6 +924,12 @@ class C07(Property):
 
         def bump(k):
             st[k] = st.get(k, 0) + 1
+        if rq:
+            keys = [p.partition('=')[0] for p in re.split('[&;]', rq) if p]
+            if len(keys) != len(set(keys)):
+                bump('ref_query_repeats_a_key')
+            if not query_canonical(rq):
+                bump('ref_query_not_plain_pairs')
         if rs is not None or ra is not None:
             bump('ref_with_scheme_or_authority')
         elif rp == '':
@@ -683,27 +949,41 @@ class C07(Property):
     def nontrivial(self, case, obs):
         return getattr(self, '_nt', False)
 
-    # known finding: a reference with an empty path and a present-but-empty query ('?', '?#s') keeps the base query
+    # known finding: a reference with an empty path and a present query without parameters ('?', '?#s', '?&')
+    # keeps the base query
     def finding_empty_query_keeps_base_query(self, case, failure):
         if failure.tag != 'rfc_mismatch':
             return False
         rs, ra, rp, rq, rfr = rfc_parse(failure.ref)
-        if not (rs is None and ra is None and rp == '' and rq == ''):
+        # present, but without a parameter: '' (or nothing but pair separators)
+        if not (rs is None and ra is None and rp == '' and rq is not None and qnorm(rq) == ''):
             return False
         if not rfc_parse(failure.cur)[3]:
             return False
         # exactly this defect: the result is what RFC 5.2 gives for the same reference without the '?'
         alt = rfc_resolve(failure.cur, rfc_recompose(None, None, '', None, rfr))
-        return canon(failure.got) == canon(alt)
+        return same_uri(failure.got, alt)
 
     # ------------------------------------------------------------------ shrinking
+    @staticmethod
+    def fewer_pairs(q):
+        if not q or '&' not in q:
+            return
+        pairs = q.split('&')
+        for j in range(len(pairs)):
+            yield '&'.join(pairs[:j] + pairs[j + 1:])
+
     def shrink(self, case):
         refs = case['refs']
         if len(refs) > 1:
             for i in range(len(refs)):
                 yield dict(case, refs=refs[:i] + refs[i + 1:])
         if case.get('as_url'):
+            yield dict(case, as_url=case['as_url'] - 1)
             yield dict(case, as_url=0)
+        for k in ('lazy', 'base_parsed_query'):
+            if k in case:
+                yield {kk: vv for kk, vv in case.items() if kk != k}
         for i, r in enumerate(refs):
             rf = full(r)
             segs = rf['path'].split('/')
@@ -715,7 +995,11 @@ class C07(Property):
             for k in ('query', 'frag'):
                 if rf[k] is not None:
                     yield dict(case, refs=refs[:i] + [compact(dict(rf, **{k: None}))] + refs[i + 1:])
+            for q2 in self.fewer_pairs(rf['query']):
+                yield dict(case, refs=refs[:i] + [compact(dict(rf, query=q2))] + refs[i + 1:])
         b = full(case['base'])
+        for q2 in self.fewer_pairs(b['query']):
+            yield dict(case, base=compact(dict(b, query=q2)))
         for k, v in (('frag', None), ('query', None), ('user', ''), ('pw', ''), ('port', 0)):
             if b[k] != v and not (k == 'user' and b['pw']):
                 yield dict(case, base=compact(dict(b, **{k: v})))
